@@ -23,6 +23,7 @@ Task:
    - NOT be exposed at once by ordinary use: it must need something specific to manifest - a particular interleaving, a crash/fault at a particular point, a multi-step sequence of operations, an unusual input or boundary value, an unusual configuration, or two cooperating sites. Avoid changes that break every transfer / every call.
    - be a change to program logic (not comments, logging or error-message text), touching as few lines as possible (ideally 1-10 lines).
    - be of a DIFFERENT kind and in a DIFFERENT place than these changes, which other people already made for this property (do not redo any of them; aim at a clause, input dimension or code path of the property that none of them touches): {PREV}
+   - {HINT}
 3. Write a demonstration: a NEW Go test file (package-internal tests are fine, e.g. {BASE}/{ID}/internal/<pkg>/seed_demo_test.go) or a small program, that FAILS with your change and PASSES without it (verify both). If the bug needs a particular interleaving, the demo may force it deterministically in any way you like (sleeps, channels, hooks local to the test), or loop until it hits; it must fail reliably (>= 9 of 10 runs) with the change.
 4. Produce these files in {BASE}/{ID}/SEED/ :
    - patch.diff : output of `git diff` containing ONLY the change to the non-test source (not the demo, not SEED/). It must apply with `git apply` to a clean checkout.
@@ -36,5 +37,5 @@ for i,p in props.items():
     wt=f'{base}/{i}'
     if not os.path.exists(wt):
         subprocess.run(['git','-C','/repo','worktree','add','-q','--detach',wt],check=True)
-    open(f'{base}/prompt_{i}.txt','w').write(T.format(BASE=base,ID=i,PROP=json.dumps(p,indent=1),PREV=' | '.join(prev.get(i,['(none)']))))
+    open(f'{base}/prompt_{i}.txt','w').write(T.format(BASE=base,ID=i,PROP=json.dumps(p,indent=1),PREV=' | '.join(prev.get(i,['(none)'])),HINT=os.environ.get('SEED_HINT','(no further hint)')))
 print(len(props),'prompts under',base)
